@@ -88,6 +88,8 @@ pub struct Ctx {
     pub seq: u64,
     pub counters: BTreeMap<String, u32>,
     pub log: Vec<String>,
+    /// call sequence number of each log line (not every intercepted call logs a line)
+    pub log_seq: Vec<u64>,
     pub log_enabled: bool,
     pub write_set: Vec<(String, String)>,
     pub fired: Vec<Fired>,
@@ -120,6 +122,7 @@ impl Ctx {
             seq: 0,
             counters: BTreeMap::new(),
             log: vec![],
+            log_seq: vec![],
             log_enabled: true,
             write_set: vec![],
             fired: vec![],
@@ -190,6 +193,7 @@ impl Ctx {
     fn note(&mut self, line: String) {
         if self.log_enabled {
             self.log.push(line);
+            self.log_seq.push(self.seq);
         }
     }
 
@@ -228,6 +232,15 @@ pub fn current() -> *mut Ctx {
     CURRENT.load(Ordering::SeqCst)
 }
 
+thread_local! {
+    /// threads of the simulator itself (executor main thread, watchdog) never enter a context
+    static BYPASS: std::cell::Cell<bool> = const { std::cell::Cell::new(false) };
+}
+
+pub fn set_bypass(on: bool) {
+    BYPASS.with(|b| b.set(on));
+}
+
 struct Guard {
     ctx: *mut Ctx,
 }
@@ -246,18 +259,17 @@ fn enter() -> Option<Guard> {
     if p.is_null() {
         return None;
     }
-    if BUSY.swap(true, Ordering::SeqCst) {
+    if BYPASS.with(|b| b.get()) {
         return None;
     }
-    // scheduling point (may switch CURRENT while we are parked; re-read afterwards)
+    // scheduling point (may park this thread and switch CURRENT; re-read afterwards)
     let hook = SCHED_HOOK.load(Ordering::SeqCst);
     if !hook.is_null() {
-        BUSY.store(false, Ordering::SeqCst);
         let f: fn() = unsafe { std::mem::transmute(hook) };
         f();
-        if BUSY.swap(true, Ordering::SeqCst) {
-            return None;
-        }
+    }
+    if BUSY.swap(true, Ordering::SeqCst) {
+        return None;
     }
     let p = CURRENT.load(Ordering::SeqCst);
     if p.is_null() {
